@@ -20,7 +20,7 @@ Definition all_opt_canon : list (option exc) := None :: map Some all_canon_excs.
 Lemma all_positions_complete : forall p, In p all_positions.
 Proof. destruct p as [| | | | | | | | | | |d|]; try (simpl; tauto); destruct d; simpl; tauto. Qed.
 Lemma all_upos_complete : forall p, In p all_upos.
-Proof. destruct p as [| | | | |d| | |]; try (simpl; tauto); destruct d; simpl; tauto. Qed.
+Proof. destruct p as [| | | | |d| | | | |]; try (simpl; tauto); destruct d; simpl; tauto. Qed.
 Lemma all_leaves_complete : forall k, In k all_leaves.
 Proof. destruct k; simpl; tauto. Qed.
 Lemma flavours_complete : forall f, In f all_flavours.
@@ -153,7 +153,8 @@ Proof.
   intros. assert (M : forall p, u_state (udp_client_task_main p e) = CNone).
   { intros q. unfold udp_client_task_main. destruct (match_run udp_aexit e) as [r lg]. destruct r; reflexivity. }
   unfold udp_client_task. destruct p; try apply M;
-    try (destruct (delay_error d) as [k|]; [destruct (leaf_matches udp_wait_clauses k)|]); solve [apply M | reflexivity].
+    try (destruct (delay_error d) as [k|]; [destruct (leaf_matches udp_wait_clauses k)|]);
+    try destruct udp_first_parse_protected; try destruct (leaf_matches udp_wait_clauses KGeneric); solve [apply M | reflexivity].
 Qed.
 
 (* ---- non-vacuity ---- *)
